@@ -25,6 +25,7 @@ class ManualExecutor(Executor):
         self.plan = plan
         self.tag = tag
         self.futs = {}
+        self.weak = {}      # sub -> weak reference to the latest future handed out for it
         self.n = 0
         self.down = False
         self._name = "manual"
@@ -40,6 +41,8 @@ class ManualExecutor(Executor):
             E.vsleep(p["submit_delay"])     # a delegate whose submit() itself takes time (bounded queue, remote call)
         fut = Future()
         fut._mxv_sub = sub
+        import weakref as _weakref
+        self.weak[sub] = _weakref.ref(fut)
         retain = not self.plan.get("_noretain")
         if retain:
             self.futs.setdefault(sub, []).append(fut)
